@@ -103,10 +103,73 @@ def judge_forwarder(sc, obs, event):
     return None
 
 
+def torn_cases(quick):
+    """The child is killed while it is blocked in the middle of sending a result much bigger than the pipe / socket buffers (nobody
+    has been reading): the consumer meets a message which ends half-way."""
+    out = []
+    size = 3000000
+    for kind in ('PP', 'PR'):
+        for how in ('KILL', 'TERM', 'forced-terminate'):
+            for consumer in ('api', 'iter'):
+                for nread in ((0,) if quick else (0, 1)):
+                    sc = [{'op': 'create', 'var': 'w', 'kind': kind, 'target': 'slow_echo', 'kwargs': {'delay': 0.0, 'size': size}}]
+                    for x in ('a', 'b', 'c'):
+                        sc.append({'op': 'call', 'var': 'w', 'method': 'enqueue', 'args': [x]})
+                    for i in range(nread):
+                        sc.append({'op': 'call', 'var': 'w', 'method': 'next_result', 'kwargs': {'timeout': 10}, 'timeout': 15, 'tag': 'pre%d' % i, 'digest': True})
+                    sc.append({'op': 'sleep', 's': 0.8})
+                    if how == 'forced-terminate':
+                        sc.append({'op': 'call', 'var': 'w', 'method': 'terminate', 'kwargs': {'timeout': 0.5, 'force': True}, 'timeout': 30, 'tag': 'terminate'})
+                    else:
+                        sc.append({'op': 'kill', 'var': 'w', 'sig': how})
+                    sc += [{'op': 'poll_dead', 'var': 'w', 'timeout': 10, 'tag': 'dead'},
+                           {'op': 'drain', 'var': 'w', 'tag': 'drain', 'digest': True, 'timeout': 8, 'iter': consumer == 'iter'},
+                           {'op': 'call', 'var': 'w', 'method': 'next_result', 'timeout': 3, 'tag': 'after-end'},
+                           {'op': 'get', 'var': 'w', 'attr': 'has_error', 'tag': 'has_error'}]
+                    out.append({'script': sc, 'kind': kind, 'how': how, 'consumer': consumer, 'nread': nread, 'size': size})
+    return out
+
+
+def judge_torn(case, obs):
+    if obs.get('driver_hang') or obs.get('driver_error'):
+        return ('harness', obs.get('driver_hang') or obs.get('driver_error'))
+    t = {}
+    for op, st in zip(case['script'], obs['steps']):
+        if op.get('tag'):
+            t[op['tag']] = st
+        if st.get('harness_error'):
+            return ('harness', st)
+    if 'ret' not in obs['steps'][0]:
+        return ('harness', obs['steps'][0])
+    exp = [[x, 'str[%d]:p' % case['size']] for x in ('a', 'b', 'c')]
+    got = []
+    for i in range(case['nread']):
+        if 'ret' not in t['pre%d' % i]:
+            return ('harness', t['pre%d' % i])
+    if t.get('dead', {}).get('ret') is not True:
+        return ('worker-not-dead', t.get('dead'))
+    d = t.get('drain', {})
+    if d.get('end') != 'empty':
+        return ('stream-never-ends' if d.get('end') == 'hang' else 'stream-end-%s' % d.get('end'), {'end': d.get('end'), 'results_before': len(d.get('ret') or [])})
+    got = d.get('ret') or []
+    if got != exp[case['nread']:case['nread'] + len(got)]:
+        return ('not-a-prefix', {'got': got})
+    if t.get('after-end', {}).get('exc') != 'Empty':
+        return ('read-after-end', t.get('after-end'))
+    if t.get('has_error', {}).get('ret') not in (True, False):
+        return ('has_error=None', t.get('has_error'))
+    return None
+
+
 def judge(case, obs):
     if obs.get('driver_hang') or obs.get('driver_error'):
         return ('harness', obs.get('driver_hang') or obs.get('driver_error'))
     if obs.get('ctor') != 'ok':
+        ev0 = (case.get('events') or [None])[0]
+        if ev0 and ev0['action'] in ('sigkill', 'sigterm') and str(obs.get('ctor')).startswith('RAISES:'):
+            # the child was killed while the parent's constructor was still waiting for the hand-over of its identity: a
+            # constructor which raises is a correct answer (C20), there is no stream to judge
+            return ('killed-before-the-constructor-returned', None)
         return ('constructor-' + str(obs.get('ctor')), None)
     if obs.get('not_reached'):
         return ('beyond-end', None)
@@ -186,6 +249,22 @@ def run(ctx):
             continue
         ctx.violation('LAND/PR/forwarder-held@%s/%s/%s' % (land.site_sig(fsites[k - 1], REPO), event, v[0]), {'k': k, 'event': event, 'site': fsites[k - 1]},
                       v[1], 'a prefix of the expected results, then the end of the stream', engine='LAND')
+    tcs = torn_cases(ctx.quick)
+    tres = land.run_cases(tcs, case_timeout=120)
+    ctx.extra['killed_in_send_runs'] = len(tcs)
+    for case, o in zip(tcs, tres):
+        ctx.count()
+        ctx.distinct(('torn', case['kind'], case['how'], case['consumer'], case['nread']))
+        v = judge_torn(case, o)
+        ctx.outcome('%s-killed-in-send:%s' % (case['kind'], v[0] if v else 'ok'))
+        if v is None:
+            continue
+        if v[0] == 'harness':
+            ctx.extra.setdefault('harness_anomalies', []).append({'torn': [case['kind'], case['how']], 'why': str(v[1])[:160]})
+            continue
+        ctx.violation('SEQ/%s/killed-in-the-middle-of-a-send/%s/%s/%s' % (case['kind'], case['how'], case['consumer'], v[0]),
+                      {k: case[k] for k in ('kind', 'how', 'consumer', 'nread', 'size', 'script')}, v[1],
+                      'a prefix of the expected results, then the end of the stream (queue.Empty)', engine='SEQ')
     harness = 0
     for obs in bases + runs + forced:
         case = obs['case']
@@ -197,7 +276,7 @@ def run(ctx):
         ctx.outcome('%s:%s' % (case['kind'], v[0] if v else 'ok'))
         if v is None:
             continue
-        if v[0] in ('beyond-end', 'not-dead'):
+        if v[0] in ('beyond-end', 'not-dead', 'killed-before-the-constructor-returned'):
             ctx.extra[v[0]] = ctx.extra.get(v[0], 0) + 1
             continue
         if v[0] == 'harness':
